@@ -128,6 +128,7 @@ CHECKS = {
         units=[
             dict(test="TestC05Sessions", unit="sessions", kind="rapid", checks=(1600, 40000), shards=(8, 16)),
             dict(test="TestC05Bin", unit="bin", kind="enum", shards=(5, 5), bin=True),
+            dict(test="TestC05Huge", unit="huge", kind="enum", shards=(1, 3)),
         ],
     ),
     "C06": dict(
